@@ -154,6 +154,19 @@ def corpus_jobs(prop, root='/repo'):
             na.append(sid)
             continue
         jobs.append(('seed', sid, prop, ov, root))
+    # independently written behaviour-preserving refactorings: every one recorded as silent for this property must stay silent
+    tw_file = os.path.join(VERIF, 'twins_indep', 'RESULTS.json')
+    tw_table = json.load(open(tw_file)) if os.path.exists(tw_file) else None
+    if tw_table is not None:
+        for d in sorted(glob.glob(os.path.join(VERIF, 'twins_indep', '*', 'patch.diff'))):
+            tid = os.path.basename(os.path.dirname(d))
+            if tid not in tw_table or prop in tw_table[tid]:
+                continue  # not evaluated, or recorded as undecided for this property (DESIGN section 12)
+            ov = patched_sources(d, root)
+            if ov is None:
+                na.append(tid)
+                continue
+            jobs.append(('twin', tid, prop, ov, root))
     return jobs, na
 
 
